@@ -10,3 +10,5 @@ def check(rep, tier):
     rules_exact.run(rep, tier, rules_exact.CLAUSE_PROPS["C10"])
     from contracts import containers
     containers.run_ground(rep, tier)
+    from contracts import discipline
+    discipline.run_frame(rep, tier)
